@@ -1,7 +1,7 @@
 (* Props/C17.v — property theorem only.  The summary queries (direction, level_at, has_rtl) say what
    they claim; ParagraphBidiInfo::has_rtl = false implies that no stored level is odd and that every
    line reorders to itself. *)
-From BidiVerif Require Import Base ConstsGen TablesGen ModelText ModelResolve ModelLine Stmts.
+From BidiVerif Require Import Base ConstsGen TablesGen ModelText RefDs ModelResolve ModelLine Stmts.
 From BidiVerif.Proofs Require Import Queries.
 
 Theorem C17_summary_queries : C17_statement.
@@ -11,10 +11,10 @@ Proof. exact C17_proof. Qed.
    trailing space back at the paragraph level 1); with an LTR base direction has_rtl is false,
    every level is 0 and the line reorders to itself.  [] has direction Rtl, hence [lv <> []]. *)
 Example C17_abc_space :
-  (exists pb, para_bidi_info_new U8 hardcoded_ds [97; 98; 99; 32]%N (Some 1) = Ok pb /\
+  (exists pb, para_bidi_info_new U8 ucd16_ds [97; 98; 99; 32]%N (Some 1) = Ok pb /\
               para_bidi_info_has_rtl false pb = true /\ pb_levels pb = [2; 2; 2; 1] /\
               para_direction (pb_levels pb) = Mixed) /\
-  (exists pb, para_bidi_info_new U8 hardcoded_ds [97; 98; 99; 32]%N (Some 0) = Ok pb /\
+  (exists pb, para_bidi_info_new U8 ucd16_ds [97; 98; 99; 32]%N (Some 0) = Ok pb /\
               para_bidi_info_has_rtl false pb = false /\ pb_levels pb = [0; 0; 0; 0] /\
               para_direction (pb_levels pb) = Ltr /\
               reorder_line U8 false [97; 98; 99; 32]%N (pb_classes pb) (pb_levels pb) (pb_level pb) (0, 4)
